@@ -28,10 +28,12 @@ BAD_INDICES = [-25, -24, -2, -1, 24, 25, 47, 48, 100, 1000, 2.5]
 
 
 # ---------------------------------------------------------------- helpers
-def make_gate(name, qs):
+def make_gate(name, qs, form=None):
     pc = lib.pc
+    conv = {None: int, 'np.int64': np.int64, 'np.int32': np.int32}[form]
+    qs = [conv(q) for q in qs]
     if name.startswith('C') and name != 'CNOT':
-        return pc.C(int(name[1:]), *qs)
+        return pc.C(conv(int(name[1:])), *qs)
     return getattr(pc, name)(*qs)
 
 
@@ -136,13 +138,14 @@ def fn_paulis(items):
     viol = []
     samples = []
     for item in items:
-        N, name, qs = item
+        N, name, qs = item[:3]
+        form = item[3] if len(item) > 3 else None
         qs = [int(q) for q in qs]
         acc = _Acc(item)
-        cls = gate_class(name, qs)
-        label = '%s(%s) on N=%d' % (name, ','.join(map(str, qs)), N)
+        cls = gate_class(name, qs) + ('/index-type=%s' % form if form else '')
+        label = '%s(%s) on N=%d' % (name, ','.join(map(str, qs)), N) + (' with %s indices' % form if form else '')
         try:
-            gate = make_gate(name, qs)
+            gate = make_gate(name, qs, form)
         except Exception as e:
             viol.append(V('C11/%s/constructor-raises-%s' % (cls, type(e).__name__), item, '%s: constructor raised %s: %s' % (label, type(e).__name__, e)))
             continue
@@ -634,6 +637,9 @@ def legs(tier):
     out.append(Leg('paulis', fn_paulis, items, chunk=2, src_states=sum(4 * 4 ** N for N in Ns),
                    bound='N in %s: H,S,X,Y,Z and C(0..23) on every wire, CNOT on every ordered pair of distinct wires (%d gate placements) x the whole Pauli group with 4 phases' % (
                        (Ns,), len(items))))
+    nitems = [[N, name, qs, form] for N in (2, 3) for name, qs in gates_of(N) for form in ('np.int64', 'np.int32')]
+    out.append(Leg('paulis_numpy_indices', fn_paulis, nitems, chunk=4, src_states=sum(4 * 4 ** N for N in (2, 3)),
+                   bound='N in (2, 3): the same %d gate placements with qubit indices (and the C index) given as numpy.int64 / numpy.int32 scalars (as produced by loops over numpy.arange) x the whole Pauli group with 4 phases' % (len(nitems) // 2)))
     for N in (1, 2):
         stab.tableaux(N)
         stab.valid_keyset(N)
